@@ -361,6 +361,13 @@ class UCMM( device.Object ):
                         # "Simple" (non route_path encapsulated) request will be allowed by any device
                         # (self.route_path configured or not).
                         if self.route_path is not None: # may be [{"port"}...]}, or 0/False
+                            # What we compare must be all of the route_path the request carries: segments
+                            # of a type the EPATH parser doesn't know end its segment list early (the rest
+                            # of the .size words are skipped), and would be taken for no/a shorter path.
+                            assert 2 * ( unc_send.get( 'route_path.size' ) or 0 ) \
+                                == len( parser.route_path.produce( route_path or [] )) - 2, \
+                                "Unconnected Send route path of %d words not (completely) recognized: %r" % (
+                                    unc_send.get( 'route_path.size' ) or 0, route_path )
                             assert ( not route_path			# Request has no route_path (Simple Request); its to some Object known to this simulator
                                      or ( not self.route_path		# Our specified route_path is Falsey (Simple Device)
                                           and route_path is None )	#   and the incoming request had not route_path
